@@ -708,6 +708,18 @@ pub fn replay_case(prop: &Property, rf: &ReplayFile, thorough: bool) -> (Verdict
     (Verdict::Pass, desc)
 }
 
+/// Set by a part whose case could not be judged for a reason OUTSIDE the code under test that would otherwise pass
+/// silently (a child process killed from outside): the run then ends with exit 2 unless a violation was found.
+pub static INCONCLUSIVE: std::sync::atomic::AtomicBool = std::sync::atomic::AtomicBool::new(false);
+pub static INCONCLUSIVE_WHY: std::sync::Mutex<String> = std::sync::Mutex::new(String::new());
+pub fn mark_inconclusive(why: &str) {
+    INCONCLUSIVE.store(true, std::sync::atomic::Ordering::Relaxed);
+    let mut g = INCONCLUSIVE_WHY.lock().unwrap();
+    if g.is_empty() {
+        *g = why.to_string();
+    }
+}
+
 pub struct Report {
     pub out: std::fs::File,
 }
@@ -952,6 +964,9 @@ pub fn run_property(prop: &Property, thorough: bool, seed: u64, rep: &mut Report
     if violations > 0 {
         1
     } else if health_fail {
+        2
+    } else if INCONCLUSIVE.load(std::sync::atomic::Ordering::Relaxed) {
+        rep.line(&format!("harness: inconclusive: {}", INCONCLUSIVE_WHY.lock().unwrap()));
         2
     } else {
         0
